@@ -366,7 +366,7 @@ fn random_trace(mode: &str, rng: &mut SmallRng, steps: usize) -> Sim {
             nfaults += 1;
             let i = if nfaults > 1 && rng.random_range(0..3) != 0 { last_fault_ep } else { rng.random_range(0..2) };
             last_fault_ep = i;
-            let kind = pick(rng, &["cutsrc", "endsrc", "cutsink", "softcut", "dropmux", "close"]);
+            let kind = pick(rng, &["cutsrc", "cutsrcs", "endsrc", "cutsink", "softcut", "dropmux", "close"]);
             match kind {
                 "dropmux" => {
                     sim.exec(&json!({"op": "drop_mux", "e": en(i)}));
